@@ -149,16 +149,16 @@
 /*** BEGIN - Change the grammar rules below ***/
 /*** BEGIN - Change the grammar rules below ***/
 start: END_OF_FILE                          { result = ::sqf::parser::sqf::bison::astnode{}; }
-     | statements                           { result = ::sqf::parser::sqf::bison::astnode{}; result.append($1); }
+     | statements                           { result = ::sqf::parser::sqf::bison::astnode{}; result.append(std::move($1)); }
      | separators                           { result = ::sqf::parser::sqf::bison::astnode{}; }
-     | separators statements                { result = ::sqf::parser::sqf::bison::astnode{}; result.append($2); }
+     | separators statements                { result = ::sqf::parser::sqf::bison::astnode{}; result.append(std::move($2)); }
      ;
-statements: statement                       { $$ = ::sqf::parser::sqf::bison::astnode{ astkind::STATEMENTS }; $$.append($1); }
-          | statements separators           { $$ = $1; }
-          | statements separators statement { $$ = $1; $$.append($3); }
+statements: statement                       { $$ = ::sqf::parser::sqf::bison::astnode{ astkind::STATEMENTS }; $$.append(std::move($1)); }
+          | statements separators           { $$ = std::move($1); }
+          | statements separators statement { $$ = std::move($1); $$.append(std::move($3)); }
           ;
-statement: assignment                       { $$ = $1; }
-         | expression                       { $$ = $1; }
+statement: assignment                       { $$ = std::move($1); }
+         | expression                       { $$ = std::move($1); }
          ;
 separator: ";"
          | ","
@@ -194,110 +194,110 @@ value: STRING                               { $$ = ::sqf::parser::sqf::bison::as
      | HEXNUMBER                            { $$ = ::sqf::parser::sqf::bison::astnode{ astkind::HEXNUMBER, $1 }; }
      | "true"                               { $$ = ::sqf::parser::sqf::bison::astnode{ astkind::BOOLEAN_TRUE, $1 }; }
      | "false"                              { $$ = ::sqf::parser::sqf::bison::astnode{ astkind::BOOLEAN_FALSE, $1 }; }
-     | code                                 { $$ = $1; }
-     | array                                { $$ = $1; }
+     | code                                 { $$ = std::move($1); }
+     | array                                { $$ = std::move($1); }
      ;
-exp_list: expression                        { $$ = ::sqf::parser::sqf::bison::astnode{ astkind::EXPRESSION_LIST }; $$.append($1); }
-        | exp_list "," expression           { $$ = $1; $$.append($3); }
+exp_list: expression                        { $$ = ::sqf::parser::sqf::bison::astnode{ astkind::EXPRESSION_LIST }; $$.append(std::move($1)); }
+        | exp_list "," expression           { $$ = std::move($1); $$.append(std::move($3)); }
         ;
-code: "{" statements "}"                    { $$ = ::sqf::parser::sqf::bison::astnode{  astkind::CODE, $1 }; $$.append($2); }
-    | "{" separators statements "}"         { $$ = ::sqf::parser::sqf::bison::astnode{  astkind::CODE, $1 }; $$.append($3); }
+code: "{" statements "}"                    { $$ = ::sqf::parser::sqf::bison::astnode{  astkind::CODE, $1 }; $$.append(std::move($2)); }
+    | "{" separators statements "}"         { $$ = ::sqf::parser::sqf::bison::astnode{  astkind::CODE, $1 }; $$.append(std::move($3)); }
     | "{" separators "}"                    { $$ = ::sqf::parser::sqf::bison::astnode{  astkind::CODE, $1 }; }
     | "{" "}"                               { $$ = ::sqf::parser::sqf::bison::astnode{  astkind::CODE, $1 }; }
     ;
 array: "[" exp_list "]"                     { $$ = ::sqf::parser::sqf::bison::astnode{ astkind::ARRAY, $1 }; $$.append_children($2); }
      | "[" "]"                              { $$ = ::sqf::parser::sqf::bison::astnode{ astkind::ARRAY, $1 }; }
      ;
-assignment: "private" IDENT "=" expression  { $$ = ::sqf::parser::sqf::bison::astnode{ astkind::ASSIGNMENT_LOCAL, $2 }; $$.append($4); }
-          | value "=" expression            { $$ = ::sqf::parser::sqf::bison::astnode{ astkind::ASSIGNMENT, $2 }; $$.append($1); $$.append($3); }
+assignment: "private" IDENT "=" expression  { $$ = ::sqf::parser::sqf::bison::astnode{ astkind::ASSIGNMENT_LOCAL, $2 }; $$.append(std::move($4)); }
+          | value "=" expression            { $$ = ::sqf::parser::sqf::bison::astnode{ astkind::ASSIGNMENT, $2 }; $$.append(std::move($1)); $$.append(std::move($3)); }
           ;
-expression: exp0                            { $$ = $1; }
+expression: exp0                            { $$ = std::move($1); }
           ;
-exp0: exp1                                  { $$ = $1; }
-    | exp0 OPERATOR_B_0 exp1                { $$ = ::sqf::parser::sqf::bison::astnode{ astkind::EXP0, $2 }; $$.append($1); $$.append($3); }
-    | exp0 OPERATOR_BUN_0 exp1              { $$ = ::sqf::parser::sqf::bison::astnode{ astkind::EXP0, $2 }; $$.append($1); $$.append($3); }
-    | exp0 OPERATOR_BU_0 exp1               { $$ = ::sqf::parser::sqf::bison::astnode{ astkind::EXP0, $2 }; $$.append($1); $$.append($3); }
-    | exp0 OPERATOR_BN_0 exp1               { $$ = ::sqf::parser::sqf::bison::astnode{ astkind::EXP0, $2 }; $$.append($1); $$.append($3); }
+exp0: exp1                                  { $$ = std::move($1); }
+    | exp0 OPERATOR_B_0 exp1                { $$ = ::sqf::parser::sqf::bison::astnode{ astkind::EXP0, $2 }; $$.append(std::move($1)); $$.append(std::move($3)); }
+    | exp0 OPERATOR_BUN_0 exp1              { $$ = ::sqf::parser::sqf::bison::astnode{ astkind::EXP0, $2 }; $$.append(std::move($1)); $$.append(std::move($3)); }
+    | exp0 OPERATOR_BU_0 exp1               { $$ = ::sqf::parser::sqf::bison::astnode{ astkind::EXP0, $2 }; $$.append(std::move($1)); $$.append(std::move($3)); }
+    | exp0 OPERATOR_BN_0 exp1               { $$ = ::sqf::parser::sqf::bison::astnode{ astkind::EXP0, $2 }; $$.append(std::move($1)); $$.append(std::move($3)); }
     ;
-exp1: exp2                                  { $$ = $1; }
-    | exp1 OPERATOR_B_1 exp2                { $$ = ::sqf::parser::sqf::bison::astnode{ astkind::EXP1, $2 }; $$.append($1); $$.append($3); }
-    | exp1 OPERATOR_BU_1 exp2               { $$ = ::sqf::parser::sqf::bison::astnode{ astkind::EXP1, $2 }; $$.append($1); $$.append($3); }
-    | exp1 OPERATOR_BN_1 exp2               { $$ = ::sqf::parser::sqf::bison::astnode{ astkind::EXP1, $2 }; $$.append($1); $$.append($3); }
-    | exp1 OPERATOR_BUN_1 exp2              { $$ = ::sqf::parser::sqf::bison::astnode{ astkind::EXP1, $2 }; $$.append($1); $$.append($3); }
+exp1: exp2                                  { $$ = std::move($1); }
+    | exp1 OPERATOR_B_1 exp2                { $$ = ::sqf::parser::sqf::bison::astnode{ astkind::EXP1, $2 }; $$.append(std::move($1)); $$.append(std::move($3)); }
+    | exp1 OPERATOR_BU_1 exp2               { $$ = ::sqf::parser::sqf::bison::astnode{ astkind::EXP1, $2 }; $$.append(std::move($1)); $$.append(std::move($3)); }
+    | exp1 OPERATOR_BN_1 exp2               { $$ = ::sqf::parser::sqf::bison::astnode{ astkind::EXP1, $2 }; $$.append(std::move($1)); $$.append(std::move($3)); }
+    | exp1 OPERATOR_BUN_1 exp2              { $$ = ::sqf::parser::sqf::bison::astnode{ astkind::EXP1, $2 }; $$.append(std::move($1)); $$.append(std::move($3)); }
     ;
-exp2: exp3                                  { $$ = $1; }
-    | exp2 OPERATOR_B_2 exp3                { $$ = ::sqf::parser::sqf::bison::astnode{ astkind::EXP2, $2 }; $$.append($1); $$.append($3); }
-    | exp2 OPERATOR_BU_2 exp3               { $$ = ::sqf::parser::sqf::bison::astnode{ astkind::EXP2, $2 }; $$.append($1); $$.append($3); }
-    | exp2 OPERATOR_BN_2 exp3               { $$ = ::sqf::parser::sqf::bison::astnode{ astkind::EXP2, $2 }; $$.append($1); $$.append($3); }
-    | exp2 OPERATOR_BUN_2 exp3              { $$ = ::sqf::parser::sqf::bison::astnode{ astkind::EXP2, $2 }; $$.append($1); $$.append($3); }
+exp2: exp3                                  { $$ = std::move($1); }
+    | exp2 OPERATOR_B_2 exp3                { $$ = ::sqf::parser::sqf::bison::astnode{ astkind::EXP2, $2 }; $$.append(std::move($1)); $$.append(std::move($3)); }
+    | exp2 OPERATOR_BU_2 exp3               { $$ = ::sqf::parser::sqf::bison::astnode{ astkind::EXP2, $2 }; $$.append(std::move($1)); $$.append(std::move($3)); }
+    | exp2 OPERATOR_BN_2 exp3               { $$ = ::sqf::parser::sqf::bison::astnode{ astkind::EXP2, $2 }; $$.append(std::move($1)); $$.append(std::move($3)); }
+    | exp2 OPERATOR_BUN_2 exp3              { $$ = ::sqf::parser::sqf::bison::astnode{ astkind::EXP2, $2 }; $$.append(std::move($1)); $$.append(std::move($3)); }
     ;
-exp3: exp4                                  { $$ = $1; }
-    | exp3 OPERATOR_B_3 exp4                { $$ = ::sqf::parser::sqf::bison::astnode{ astkind::EXP3, $2 }; $$.append($1); $$.append($3); }
-    | exp3 OPERATOR_BU_3 exp4               { $$ = ::sqf::parser::sqf::bison::astnode{ astkind::EXP3, $2 }; $$.append($1); $$.append($3); }
-    | exp3 OPERATOR_BN_3 exp4               { $$ = ::sqf::parser::sqf::bison::astnode{ astkind::EXP3, $2 }; $$.append($1); $$.append($3); }
-    | exp3 OPERATOR_BUN_3 exp4              { $$ = ::sqf::parser::sqf::bison::astnode{ astkind::EXP3, $2 }; $$.append($1); $$.append($3); }
+exp3: exp4                                  { $$ = std::move($1); }
+    | exp3 OPERATOR_B_3 exp4                { $$ = ::sqf::parser::sqf::bison::astnode{ astkind::EXP3, $2 }; $$.append(std::move($1)); $$.append(std::move($3)); }
+    | exp3 OPERATOR_BU_3 exp4               { $$ = ::sqf::parser::sqf::bison::astnode{ astkind::EXP3, $2 }; $$.append(std::move($1)); $$.append(std::move($3)); }
+    | exp3 OPERATOR_BN_3 exp4               { $$ = ::sqf::parser::sqf::bison::astnode{ astkind::EXP3, $2 }; $$.append(std::move($1)); $$.append(std::move($3)); }
+    | exp3 OPERATOR_BUN_3 exp4              { $$ = ::sqf::parser::sqf::bison::astnode{ astkind::EXP3, $2 }; $$.append(std::move($1)); $$.append(std::move($3)); }
     ;
-exp4: exp5                                  { $$ = $1; }
-    | exp4 OPERATOR_B_4 exp5                { $$ = ::sqf::parser::sqf::bison::astnode{ astkind::EXP4, $2 }; $$.append($1); $$.append($3); }
-    | exp4 OPERATOR_BU_4 exp5               { $$ = ::sqf::parser::sqf::bison::astnode{ astkind::EXP4, $2 }; $$.append($1); $$.append($3); }
-    | exp4 OPERATOR_BN_4 exp5               { $$ = ::sqf::parser::sqf::bison::astnode{ astkind::EXP4, $2 }; $$.append($1); $$.append($3); }
-    | exp4 OPERATOR_BUN_4 exp5              { $$ = ::sqf::parser::sqf::bison::astnode{ astkind::EXP4, $2 }; $$.append($1); $$.append($3); }
+exp4: exp5                                  { $$ = std::move($1); }
+    | exp4 OPERATOR_B_4 exp5                { $$ = ::sqf::parser::sqf::bison::astnode{ astkind::EXP4, $2 }; $$.append(std::move($1)); $$.append(std::move($3)); }
+    | exp4 OPERATOR_BU_4 exp5               { $$ = ::sqf::parser::sqf::bison::astnode{ astkind::EXP4, $2 }; $$.append(std::move($1)); $$.append(std::move($3)); }
+    | exp4 OPERATOR_BN_4 exp5               { $$ = ::sqf::parser::sqf::bison::astnode{ astkind::EXP4, $2 }; $$.append(std::move($1)); $$.append(std::move($3)); }
+    | exp4 OPERATOR_BUN_4 exp5              { $$ = ::sqf::parser::sqf::bison::astnode{ astkind::EXP4, $2 }; $$.append(std::move($1)); $$.append(std::move($3)); }
     ;
-exp5: exp6                                  { $$ = $1; }
-    | exp5 OPERATOR_B_5 exp6                { $$ = ::sqf::parser::sqf::bison::astnode{ astkind::EXP5, $2 }; $$.append($1); $$.append($3); }
-    | exp5 OPERATOR_BU_5 exp6               { $$ = ::sqf::parser::sqf::bison::astnode{ astkind::EXP5, $2 }; $$.append($1); $$.append($3); }
-    | exp5 OPERATOR_BN_5 exp6               { $$ = ::sqf::parser::sqf::bison::astnode{ astkind::EXP5, $2 }; $$.append($1); $$.append($3); }
-    | exp5 OPERATOR_BUN_5 exp6              { $$ = ::sqf::parser::sqf::bison::astnode{ astkind::EXP5, $2 }; $$.append($1); $$.append($3); }
+exp5: exp6                                  { $$ = std::move($1); }
+    | exp5 OPERATOR_B_5 exp6                { $$ = ::sqf::parser::sqf::bison::astnode{ astkind::EXP5, $2 }; $$.append(std::move($1)); $$.append(std::move($3)); }
+    | exp5 OPERATOR_BU_5 exp6               { $$ = ::sqf::parser::sqf::bison::astnode{ astkind::EXP5, $2 }; $$.append(std::move($1)); $$.append(std::move($3)); }
+    | exp5 OPERATOR_BN_5 exp6               { $$ = ::sqf::parser::sqf::bison::astnode{ astkind::EXP5, $2 }; $$.append(std::move($1)); $$.append(std::move($3)); }
+    | exp5 OPERATOR_BUN_5 exp6              { $$ = ::sqf::parser::sqf::bison::astnode{ astkind::EXP5, $2 }; $$.append(std::move($1)); $$.append(std::move($3)); }
     ;
-exp6: exp7                                  { $$ = $1; }
-    | exp6 OPERATOR_B_6 exp7                { $$ = ::sqf::parser::sqf::bison::astnode{ astkind::EXP6, $2 }; $$.append($1); $$.append($3); }
-    | exp6 OPERATOR_BU_6 exp7               { $$ = ::sqf::parser::sqf::bison::astnode{ astkind::EXP6, $2 }; $$.append($1); $$.append($3); }
-    | exp6 OPERATOR_BN_6 exp7               { $$ = ::sqf::parser::sqf::bison::astnode{ astkind::EXP6, $2 }; $$.append($1); $$.append($3); }
-    | exp6 OPERATOR_BUN_6 exp7              { $$ = ::sqf::parser::sqf::bison::astnode{ astkind::EXP6, $2 }; $$.append($1); $$.append($3); }
+exp6: exp7                                  { $$ = std::move($1); }
+    | exp6 OPERATOR_B_6 exp7                { $$ = ::sqf::parser::sqf::bison::astnode{ astkind::EXP6, $2 }; $$.append(std::move($1)); $$.append(std::move($3)); }
+    | exp6 OPERATOR_BU_6 exp7               { $$ = ::sqf::parser::sqf::bison::astnode{ astkind::EXP6, $2 }; $$.append(std::move($1)); $$.append(std::move($3)); }
+    | exp6 OPERATOR_BN_6 exp7               { $$ = ::sqf::parser::sqf::bison::astnode{ astkind::EXP6, $2 }; $$.append(std::move($1)); $$.append(std::move($3)); }
+    | exp6 OPERATOR_BUN_6 exp7              { $$ = ::sqf::parser::sqf::bison::astnode{ astkind::EXP6, $2 }; $$.append(std::move($1)); $$.append(std::move($3)); }
     ;
-exp7: exp8                                  { $$ = $1; }
-    | exp7 OPERATOR_B_7 exp8                { $$ = ::sqf::parser::sqf::bison::astnode{ astkind::EXP7, $2 }; $$.append($1); $$.append($3); }
-    | exp7 OPERATOR_BU_7 exp8               { $$ = ::sqf::parser::sqf::bison::astnode{ astkind::EXP7, $2 }; $$.append($1); $$.append($3); }
-    | exp7 OPERATOR_BN_7 exp8               { $$ = ::sqf::parser::sqf::bison::astnode{ astkind::EXP7, $2 }; $$.append($1); $$.append($3); }
-    | exp7 OPERATOR_BUN_7 exp8              { $$ = ::sqf::parser::sqf::bison::astnode{ astkind::EXP7, $2 }; $$.append($1); $$.append($3); }
+exp7: exp8                                  { $$ = std::move($1); }
+    | exp7 OPERATOR_B_7 exp8                { $$ = ::sqf::parser::sqf::bison::astnode{ astkind::EXP7, $2 }; $$.append(std::move($1)); $$.append(std::move($3)); }
+    | exp7 OPERATOR_BU_7 exp8               { $$ = ::sqf::parser::sqf::bison::astnode{ astkind::EXP7, $2 }; $$.append(std::move($1)); $$.append(std::move($3)); }
+    | exp7 OPERATOR_BN_7 exp8               { $$ = ::sqf::parser::sqf::bison::astnode{ astkind::EXP7, $2 }; $$.append(std::move($1)); $$.append(std::move($3)); }
+    | exp7 OPERATOR_BUN_7 exp8              { $$ = ::sqf::parser::sqf::bison::astnode{ astkind::EXP7, $2 }; $$.append(std::move($1)); $$.append(std::move($3)); }
     ;
-exp8: exp9                                  { $$ = $1; }
-    | exp8 OPERATOR_B_8 exp9                { $$ = ::sqf::parser::sqf::bison::astnode{ astkind::EXP8, $2 }; $$.append($1); $$.append($3); }
-    | exp8 OPERATOR_BU_8 exp9               { $$ = ::sqf::parser::sqf::bison::astnode{ astkind::EXP8, $2 }; $$.append($1); $$.append($3); }
-    | exp8 OPERATOR_BN_8 exp9               { $$ = ::sqf::parser::sqf::bison::astnode{ astkind::EXP8, $2 }; $$.append($1); $$.append($3); }
-    | exp8 OPERATOR_BUN_8 exp9              { $$ = ::sqf::parser::sqf::bison::astnode{ astkind::EXP8, $2 }; $$.append($1); $$.append($3); }
+exp8: exp9                                  { $$ = std::move($1); }
+    | exp8 OPERATOR_B_8 exp9                { $$ = ::sqf::parser::sqf::bison::astnode{ astkind::EXP8, $2 }; $$.append(std::move($1)); $$.append(std::move($3)); }
+    | exp8 OPERATOR_BU_8 exp9               { $$ = ::sqf::parser::sqf::bison::astnode{ astkind::EXP8, $2 }; $$.append(std::move($1)); $$.append(std::move($3)); }
+    | exp8 OPERATOR_BN_8 exp9               { $$ = ::sqf::parser::sqf::bison::astnode{ astkind::EXP8, $2 }; $$.append(std::move($1)); $$.append(std::move($3)); }
+    | exp8 OPERATOR_BUN_8 exp9              { $$ = ::sqf::parser::sqf::bison::astnode{ astkind::EXP8, $2 }; $$.append(std::move($1)); $$.append(std::move($3)); }
     ;
-exp9: expu                                  { $$ = $1; }
-    | exp9 OPERATOR_B_9 expu                { $$ = ::sqf::parser::sqf::bison::astnode{ astkind::EXP9, $2 }; $$.append($1); $$.append($3); }
-    | exp9 OPERATOR_BU_9 expu               { $$ = ::sqf::parser::sqf::bison::astnode{ astkind::EXP9, $2 }; $$.append($1); $$.append($3); }
-    | exp9 OPERATOR_BN_9 expu               { $$ = ::sqf::parser::sqf::bison::astnode{ astkind::EXP9, $2 }; $$.append($1); $$.append($3); }
-    | exp9 OPERATOR_BUN_9 expu              { $$ = ::sqf::parser::sqf::bison::astnode{ astkind::EXP9, $2 }; $$.append($1); $$.append($3); }
+exp9: expu                                  { $$ = std::move($1); }
+    | exp9 OPERATOR_B_9 expu                { $$ = ::sqf::parser::sqf::bison::astnode{ astkind::EXP9, $2 }; $$.append(std::move($1)); $$.append(std::move($3)); }
+    | exp9 OPERATOR_BU_9 expu               { $$ = ::sqf::parser::sqf::bison::astnode{ astkind::EXP9, $2 }; $$.append(std::move($1)); $$.append(std::move($3)); }
+    | exp9 OPERATOR_BN_9 expu               { $$ = ::sqf::parser::sqf::bison::astnode{ astkind::EXP9, $2 }; $$.append(std::move($1)); $$.append(std::move($3)); }
+    | exp9 OPERATOR_BUN_9 expu              { $$ = ::sqf::parser::sqf::bison::astnode{ astkind::EXP9, $2 }; $$.append(std::move($1)); $$.append(std::move($3)); }
     ;
-expu: "private" expu                        { $$ = ::sqf::parser::sqf::bison::astnode{ astkind::EXPU, $1 }; $$.append($2); }
-    | OPERATOR_U expu                       { $$ = ::sqf::parser::sqf::bison::astnode{ astkind::EXPU, $1 }; $$.append($2); }
-    | OPERATOR_UN expu                      { $$ = ::sqf::parser::sqf::bison::astnode{ astkind::EXPU, $1 }; $$.append($2); }
-    | OPERATOR_BU_0 expu                    { $$ = ::sqf::parser::sqf::bison::astnode{ astkind::EXPU, $1 }; $$.append($2); }
-    | OPERATOR_BU_1 expu                    { $$ = ::sqf::parser::sqf::bison::astnode{ astkind::EXPU, $1 }; $$.append($2); }
-    | OPERATOR_BU_2 expu                    { $$ = ::sqf::parser::sqf::bison::astnode{ astkind::EXPU, $1 }; $$.append($2); }
-    | OPERATOR_BU_3 expu                    { $$ = ::sqf::parser::sqf::bison::astnode{ astkind::EXPU, $1 }; $$.append($2); }
-    | OPERATOR_BU_4 expu                    { $$ = ::sqf::parser::sqf::bison::astnode{ astkind::EXPU, $1 }; $$.append($2); }
-    | OPERATOR_BU_5 expu                    { $$ = ::sqf::parser::sqf::bison::astnode{ astkind::EXPU, $1 }; $$.append($2); }
-    | OPERATOR_BU_6 expu                    { $$ = ::sqf::parser::sqf::bison::astnode{ astkind::EXPU, $1 }; $$.append($2); }
-    | OPERATOR_BU_7 expu                    { $$ = ::sqf::parser::sqf::bison::astnode{ astkind::EXPU, $1 }; $$.append($2); }
-    | OPERATOR_BU_8 expu                    { $$ = ::sqf::parser::sqf::bison::astnode{ astkind::EXPU, $1 }; $$.append($2); }
-    | OPERATOR_BU_9 expu                    { $$ = ::sqf::parser::sqf::bison::astnode{ astkind::EXPU, $1 }; $$.append($2); }
-    | OPERATOR_BUN_0 expu                   { $$ = ::sqf::parser::sqf::bison::astnode{ astkind::EXPU, $1 }; $$.append($2); }
-    | OPERATOR_BUN_1 expu                   { $$ = ::sqf::parser::sqf::bison::astnode{ astkind::EXPU, $1 }; $$.append($2); }
-    | OPERATOR_BUN_2 expu                   { $$ = ::sqf::parser::sqf::bison::astnode{ astkind::EXPU, $1 }; $$.append($2); }
-    | OPERATOR_BUN_3 expu                   { $$ = ::sqf::parser::sqf::bison::astnode{ astkind::EXPU, $1 }; $$.append($2); }
-    | OPERATOR_BUN_4 expu                   { $$ = ::sqf::parser::sqf::bison::astnode{ astkind::EXPU, $1 }; $$.append($2); }
-    | OPERATOR_BUN_5 expu                   { $$ = ::sqf::parser::sqf::bison::astnode{ astkind::EXPU, $1 }; $$.append($2); }
-    | OPERATOR_BUN_6 expu                   { $$ = ::sqf::parser::sqf::bison::astnode{ astkind::EXPU, $1 }; $$.append($2); }
-    | OPERATOR_BUN_7 expu                   { $$ = ::sqf::parser::sqf::bison::astnode{ astkind::EXPU, $1 }; $$.append($2); }
-    | OPERATOR_BUN_8 expu                   { $$ = ::sqf::parser::sqf::bison::astnode{ astkind::EXPU, $1 }; $$.append($2); }
-    | OPERATOR_BUN_9 expu                   { $$ = ::sqf::parser::sqf::bison::astnode{ astkind::EXPU, $1 }; $$.append($2); }
-    | "(" expression ")"                    { $$ = $2; }
-    | value                                 { $$ = $1; }
+expu: "private" expu                        { $$ = ::sqf::parser::sqf::bison::astnode{ astkind::EXPU, $1 }; $$.append(std::move($2)); }
+    | OPERATOR_U expu                       { $$ = ::sqf::parser::sqf::bison::astnode{ astkind::EXPU, $1 }; $$.append(std::move($2)); }
+    | OPERATOR_UN expu                      { $$ = ::sqf::parser::sqf::bison::astnode{ astkind::EXPU, $1 }; $$.append(std::move($2)); }
+    | OPERATOR_BU_0 expu                    { $$ = ::sqf::parser::sqf::bison::astnode{ astkind::EXPU, $1 }; $$.append(std::move($2)); }
+    | OPERATOR_BU_1 expu                    { $$ = ::sqf::parser::sqf::bison::astnode{ astkind::EXPU, $1 }; $$.append(std::move($2)); }
+    | OPERATOR_BU_2 expu                    { $$ = ::sqf::parser::sqf::bison::astnode{ astkind::EXPU, $1 }; $$.append(std::move($2)); }
+    | OPERATOR_BU_3 expu                    { $$ = ::sqf::parser::sqf::bison::astnode{ astkind::EXPU, $1 }; $$.append(std::move($2)); }
+    | OPERATOR_BU_4 expu                    { $$ = ::sqf::parser::sqf::bison::astnode{ astkind::EXPU, $1 }; $$.append(std::move($2)); }
+    | OPERATOR_BU_5 expu                    { $$ = ::sqf::parser::sqf::bison::astnode{ astkind::EXPU, $1 }; $$.append(std::move($2)); }
+    | OPERATOR_BU_6 expu                    { $$ = ::sqf::parser::sqf::bison::astnode{ astkind::EXPU, $1 }; $$.append(std::move($2)); }
+    | OPERATOR_BU_7 expu                    { $$ = ::sqf::parser::sqf::bison::astnode{ astkind::EXPU, $1 }; $$.append(std::move($2)); }
+    | OPERATOR_BU_8 expu                    { $$ = ::sqf::parser::sqf::bison::astnode{ astkind::EXPU, $1 }; $$.append(std::move($2)); }
+    | OPERATOR_BU_9 expu                    { $$ = ::sqf::parser::sqf::bison::astnode{ astkind::EXPU, $1 }; $$.append(std::move($2)); }
+    | OPERATOR_BUN_0 expu                   { $$ = ::sqf::parser::sqf::bison::astnode{ astkind::EXPU, $1 }; $$.append(std::move($2)); }
+    | OPERATOR_BUN_1 expu                   { $$ = ::sqf::parser::sqf::bison::astnode{ astkind::EXPU, $1 }; $$.append(std::move($2)); }
+    | OPERATOR_BUN_2 expu                   { $$ = ::sqf::parser::sqf::bison::astnode{ astkind::EXPU, $1 }; $$.append(std::move($2)); }
+    | OPERATOR_BUN_3 expu                   { $$ = ::sqf::parser::sqf::bison::astnode{ astkind::EXPU, $1 }; $$.append(std::move($2)); }
+    | OPERATOR_BUN_4 expu                   { $$ = ::sqf::parser::sqf::bison::astnode{ astkind::EXPU, $1 }; $$.append(std::move($2)); }
+    | OPERATOR_BUN_5 expu                   { $$ = ::sqf::parser::sqf::bison::astnode{ astkind::EXPU, $1 }; $$.append(std::move($2)); }
+    | OPERATOR_BUN_6 expu                   { $$ = ::sqf::parser::sqf::bison::astnode{ astkind::EXPU, $1 }; $$.append(std::move($2)); }
+    | OPERATOR_BUN_7 expu                   { $$ = ::sqf::parser::sqf::bison::astnode{ astkind::EXPU, $1 }; $$.append(std::move($2)); }
+    | OPERATOR_BUN_8 expu                   { $$ = ::sqf::parser::sqf::bison::astnode{ astkind::EXPU, $1 }; $$.append(std::move($2)); }
+    | OPERATOR_BUN_9 expu                   { $$ = ::sqf::parser::sqf::bison::astnode{ astkind::EXPU, $1 }; $$.append(std::move($2)); }
+    | "(" expression ")"                    { $$ = std::move($2); }
+    | value                                 { $$ = std::move($1); }
     ;
 
 
